@@ -273,8 +273,8 @@ func (p *ParserZH) expectBlockIndent() (bool, int) {
 	var peekLine = p.StartLineIdxP2
 	var currLine = p.StartLineIdxP1
 
-	var peekIndent = p.GetLineInfo(peekLine).Indents
-	var currIndent = p.GetLineInfo(currLine).Indents
+	var peekIndent = p.BlockIndents(peekLine)
+	var currIndent = p.BlockIndents(currLine)
 
 	if peekIndent == currIndent+1 {
 		return true, peekIndent
@@ -286,22 +286,20 @@ func (p *ParserZH) expectBlockIndent() (bool, int) {
 func (p *ParserZH) getPeekIndent() int {
 	var peekLine = p.StartLineIdxP2
 
-	lineInfo := p.GetLineInfo(peekLine)
-	if lineInfo == nil {
+	if p.GetLineInfo(peekLine) == nil {
 		return 0
 	}
-	return lineInfo.Indents
+	return p.BlockIndents(peekLine)
 }
 
 // getCurrIndent -
 func (p *ParserZH) getCurrIndent() int {
 	var currLine = p.StartLineIdxP1
 
-	lineInfo := p.GetLineInfo(currLine)
-	if lineInfo == nil {
+	if p.GetLineInfo(currLine) == nil {
 		return 0
 	}
-	return lineInfo.Indents
+	return p.BlockIndents(currLine)
 }
 
 // equals to s.SetCurrentLine(<line of tk>)
